@@ -20,6 +20,9 @@ package prom
 import (
 	"fmt"
 	"io/ioutil"
+	"net/url"
+	"reflect"
+	"sort"
 
 	"github.com/go-kit/log"
 	"github.com/mitchellh/hashstructure/v2"
@@ -119,10 +122,15 @@ func (c *ConfigManager) ReloadFromRaw(data []byte) (err error) {
 	if err != nil {
 		return errors.Wrapf(err, "marshal config for hash")
 	}
+	// neither of them sees the password inside a url (remote url, proxy url), so hash the urls too
+	urls := []string{}
+	collectURLs(reflect.ValueOf(info.Config), &urls, 0)
+	sort.Strings(urls)
 	hash, err := hashstructure.Hash(struct {
 		Config *config.Config
 		Text   string
-	}{info.Config, string(text)}, hashstructure.FormatV2, nil)
+		URLs   []string
+	}{info.Config, string(text), urls}, hashstructure.FormatV2, nil)
 	if err != nil {
 		return errors.Wrapf(err, "get config hash")
 	}
@@ -138,6 +146,38 @@ func (c *ConfigManager) ReloadFromRaw(data []byte) (err error) {
 	}
 
 	return nil
+}
+
+// collectURLs append every url found in the exported fields of v, with user and password
+func collectURLs(v reflect.Value, urls *[]string, depth int) {
+	if depth > 32 {
+		return
+	}
+	switch v.Kind() {
+	case reflect.Ptr, reflect.Interface:
+		if v.IsNil() {
+			return
+		}
+		if u, ok := v.Interface().(*url.URL); ok {
+			*urls = append(*urls, u.String())
+			return
+		}
+		collectURLs(v.Elem(), urls, depth+1)
+	case reflect.Struct:
+		for i := 0; i < v.NumField(); i++ {
+			if v.Type().Field(i).PkgPath == "" {
+				collectURLs(v.Field(i), urls, depth+1)
+			}
+		}
+	case reflect.Slice, reflect.Array:
+		for i := 0; i < v.Len(); i++ {
+			collectURLs(v.Index(i), urls, depth+1)
+		}
+	case reflect.Map:
+		for _, k := range v.MapKeys() {
+			collectURLs(v.MapIndex(k), urls, depth+1)
+		}
+	}
 }
 
 // UpdateExtraConfig set new extra config
